@@ -45,6 +45,7 @@ func onlyAllowedControl(p *Program, b *ssa.BasicBlock, allow func(c cond) bool) 
 }
 
 func checkC11(p *Program, r *Reporter) {
+	errDiscByName(p, r, pkgApp, "(*Server).patchHandlerFunc")
 	r.Explanation = "Static analysis of structural necessary conditions of C11: (a) the patch handler answers 425 for 'same publishTime' and 410 for 'beyond time-to-live', the two sentinel errors are returned under the publishTime-equality test and the expiration test, and travel unchanged to the handler; after an error answer the handler writes nothing more; " +
 		"(b) originalPublishTime of the patch is the publishTime attribute of the old document and publishTime that of the new one; (c) writer/reader agreement on mandatory ids: for every element kind for which the differ demands an id, the MPD generator stores one under no other condition than 'patch requested' and 'id absent'; " +
 		"(d) the advertised patch location embeds the final publishTime: no store to MPD.publishTime can follow the call that builds the location. Applying the patch reproduces the new MPD is not decided."
@@ -60,6 +61,9 @@ func checkC11(p *Program, r *Reporter) {
 		return
 	}
 	oldQueryRule(p, r, h)
+	if aec := p.mustFunc(r, pkgPatch, "addElemChanges"); aec != nil {
+		anchorAdvanceRule(p, r, aec)
+	}
 	// (a) status table + sentinel propagation
 	r.Rule("E5-STATUS", "patch handler: same publishTime -> 425, beyond ttl -> 410", 2)
 	ruleStatusTable(p, r, "E5-STATUS", h, map[string]int64{"ErrPatchSamePublishTime": 425, "ErrPatchTooLate": 410})
